@@ -1,3 +1,4 @@
+import BalmProofs.CandSpec
 import BalmProofs.JudgeSpec
 import Balm
 import BalmProofs.AttrTest
